@@ -19,7 +19,7 @@ RULE = ("random factor pairs over a 6-variable universe (scopes disjoint/nested/
         "normalize/scalars/get_value/set_value/assignment/identity/factor_product/factor_sum_product/==/hash "
         "in-place and out-of-place, with operand snapshots before/after and after mutating the result; 'perm' cases "
         "run every axis permutation of both operands (<=4 variables); 'eq' cases probe == just inside/outside "
-        "atol+rtol|b| and under axis/state permutations; 'err' cases the rejection paths; 'fset' cases FactorSet product/divide/marginalize (in place and out of place), factorset_product/factorset_divide, copy, the copying constructor, and FactorDict const*, +number, +, -, dot, product on sets of pairwise distinct factors, compared with a Python brute force over named assignments (a FactorSet is the multiset of its factors; not modelled in Coq beyond the store-model purity theorem), with operand snapshots, `is`-sharing checks and mutation of the result (in-place marginalize, values += 1, field rebinding on every member factor); numpy and torch backends. "
+        "atol+rtol|b| and under axis/state permutations; 'err' cases the rejection paths; 'fdict' cases: two FactorDicts over the same cliques whose same-scope factors list the variables in DIFFERENT axis orders (equal and unequal cardinalities): dot (both directions, self) against the model (total of the modelled product table) and the brute-force sum over named assignments of f*g, dict +/- against the modelled DiscreteFactor.sum, const*/+number, <d1,d1-d2> bilinearity, from_dataframe against row counts; 'fset' cases FactorSet product/divide/marginalize (in place and out of place), factorset_product/factorset_divide, copy, the copying constructor, and FactorDict const*, +number, +, -, dot, product on sets of pairwise distinct factors, compared with a Python brute force over named assignments (a FactorSet is the multiset of its factors; not modelled in Coq beyond the store-model purity theorem), with operand snapshots, `is`-sharing checks and mutation of the result (in-place marginalize, values += 1, field rebinding on every member factor); numpy and torch backends. "
         "Each op is compared literally with the model (variable order, cardinalities, shape, flat table, state-name "
         "dict) and with the brute-force named-assignment definition.  Non-trivial: at least one operand with >= 2 "
         "variables of unequal cardinality or a permuted state list; distinct = distinct canonical case content")
@@ -148,6 +148,7 @@ def cases(tier, seed):
     npair, nperm, neq, nerr = (420, 40, 160, 60) if tier == "quick" else (4200, 400, 1600, 300)
     nalign = 80 if tier == "quick" else 800
     nfset = 120 if tier == "quick" else 1200
+    nfdict = 160 if tier == "quick" else 1600
     for i in range(npair):
         U = gen_universe(rng)
         rel, fv, gv = gen_scopes(rng)
@@ -202,6 +203,35 @@ def cases(tier, seed):
             sets.append(fs)
         out.append({"kind": "fset", "backend": "torch" if i % 5 == 4 else "numpy", "U": U, "sets": sets,
                     "qseed": rng.randint(0, 10**9)})
+    # FactorDict stream: two dictionaries over the same cliques whose factors list the clique's variables in
+    # DIFFERENT axis orders; equal cardinalities (a transposed table has the same shape) and unequal ones
+    for i in range(nfdict):
+        equal = i % 2 == 0
+        if equal:
+            cards = [rng.choice([2, 3])] * 6
+        else:
+            cards = [2, 3, 4, 2, 3, 1]
+            rng.shuffle(cards)
+        U = gen_universe(rng, cards=cards)
+        cliques, seen = [], set()
+        sizes = [rng.choice([2, 3])] + [rng.randint(1, 3) for _ in range(rng.randint(1, 2))]
+        for k in sizes:
+            for _try in range(20):
+                vs = rng.sample(range(6), k)
+                if frozenset(vs) not in seen:
+                    seen.add(frozenset(vs))
+                    cliques.append(vs)
+                    break
+        d1, d2 = [], []
+        for j, vs in enumerate(cliques):
+            ws = list(vs)
+            if len(ws) >= 2 and (j == 0 or rng.random() < 0.7):
+                while ws == vs:
+                    rng.shuffle(ws)
+            d1.append(gen_factor(rng, U, vs, zeros=0.2))
+            d2.append(gen_factor(rng, U, ws, neg=rng.random() < 0.3, zeros=0.2))
+        out.append({"kind": "fdict", "backend": "torch" if i % 4 == 3 else "numpy", "U": U, "d1": d1, "d2": d2,
+                    "equal_cards": equal, "qseed": rng.randint(0, 10**9)})
     for i in range(nerr):
         U = gen_universe(rng)
         fv = rng.sample(range(6), rng.randint(1, 3))
@@ -1198,6 +1228,146 @@ def run_fset(case, drv):
               note="%d ops" % nops[0])
 
 
+def run_fdict(case, drv):
+    """FactorDict algebra on two dictionaries whose same-scope factors list their variables in different orders.
+    dot is compared with the model (sum of the table of the modelled product) and with the brute-force
+    sum over named assignments; + and - literally with the modelled sum, all with the brute force."""
+    from pgmpy.factors import FactorDict
+    U = case["U"]
+    rng = random.Random(case["qseed"])
+    D1, D2 = case["d1"], case["d2"]
+    N = lambda v: vname(U["vstyle"], v)
+    keys = [tuple(N(v) for v in F["vars"]) for F in D1]
+    mk = lambda specs: FactorDict({k: build(U, F) for k, F in zip(keys, specs)})
+    t1 = [spec_table(U, F) for F in D1]
+    t2 = [spec_table(U, F) for F in D2]
+    permuted = sum(1 for F, G in zip(D1, D2) if F["vars"] != G["vars"])
+    tags = ["fdict", "backend=" + case["backend"], "cards=" + ("equal" if case["equal_cards"] else "unequal"),
+            "permuted-cliques=%d" % permuted]
+    nops = 0
+
+    def snap(*dicts):
+        return [snapshot(v) for dd in dicts for v in dd.values()]
+
+    def guarded(name, fn):
+        try:
+            return None, fn()
+        except (ValueError, KeyError, IndexError, TypeError, RuntimeError) as e:
+            return bad("impl!=spec:FactorDict.%s:raised" % name, {"exc": repr(e)[:300], "d1": D1, "d2": D2}), None
+
+    # ---- dot, both directions and with itself
+    def model_dot(Fs, Gs):
+        tot = Fr(0)
+        for F, G in zip(Fs, Gs):
+            m = drv.call("c04_product", [wire(U, F), wire(U, G), list(F["vars"])])
+            tot += sum(mval(x) for x in m[4])
+        return tot
+
+    for name, (X, Y, tx, ty) in (("dot", (D1, D2, t1, t2)), ("dot-swapped", (D2, D1, t2, t1)), ("dot-self", (D2, D2, t2, t2))):
+        x, y = mk(X), mk(Y)
+        sn0 = snap(x, y)
+        b, got = guarded(name, lambda: x.dot(y))
+        if b:
+            return b
+        nops += 1
+        tags.append("op=FactorDict." + name)
+        spec = sum(sum(a[k] * c[k] for k in a) for a, c in zip(tx, ty))
+        mod = model_dot(X, Y)
+        if mod != spec:
+            return bad("model!=spec:FactorDict.dot", {"model": str(mod), "spec": str(spec)})
+        if not common.approx(float(got), spec):
+            return bad("impl!=model:FactorDict.%s" % name, {"impl": float(got), "model": str(mod), "d1": X, "d2": Y})
+        if snap(x, y) != sn0:
+            return bad("operand-mutated:FactorDict.%s" % name, {})
+    # ---- + and - of dictionaries (result literally = modelled DiscreteFactor.sum of the clique's two factors)
+    c = rng.choice([2, -3, 0.5])
+    for name, call, sgn in (("add", lambda x, y: x + y, 1), ("sub", lambda x, y: x - y, -1),
+                            ("radd-swapped", lambda x, y: y + x, 1)):
+        x, y = mk(D1), mk(D2)
+        sn0 = snap(x, y)
+        b, r = guarded(name, lambda: call(x, y))
+        if b:
+            return b
+        nops += 1
+        tags.append("op=FactorDict." + name)
+        if list(r.keys()) != keys:
+            return bad("impl!=spec:FactorDict.%s:keys" % name, {})
+        for k, F, G, a, c2 in zip(keys, D1, D2, t1, t2):
+            spec = {kk: a[kk] + sgn * c2[kk] for kk in a}
+            d = cmp_spec(U, r[k], spec)
+            if d:
+                return bad("impl!=spec:FactorDict.%s" % name, {"diff": d, "f": F, "g": G})
+            if sgn == 1:
+                first, second = (F, G) if name == "add" else (G, F)
+                m = drv.call("c04_sum", [wire(U, first), wire(U, second), [], []])
+                d = cmp_literal(U, r[k], m)
+                if d:
+                    return bad("impl!=model:FactorDict.%s:%s" % (name, d["what"]), {"diff": d, "f": F, "g": G})
+        ops_ = list(x.values()) + list(y.values())
+        for phi in r.values():
+            if any(phi is o or phi.values is o.values or phi.variables is o.variables for o in ops_):
+                return bad("result-aliases-operand:FactorDict.%s" % name, {})
+            phi.values += 1
+            phi.variables.append("__extra__")
+        if snap(x, y) != sn0:
+            return bad("operand-mutated-via-result:FactorDict.%s" % name, {})
+    # ---- scalars
+    for name, call, f_ in (("mul-const", lambda x: x * c, lambda v: v * Fr(c)), ("rmul-const", lambda x: c * x, lambda v: v * Fr(c)),
+                           ("add-number", lambda x: x + c, lambda v: v + Fr(c)), ("sub-number-via-add", lambda x: x + (-c), lambda v: v - Fr(c))):
+        x = mk(D2)
+        sn0 = snap(x)
+        b, r = guarded(name, lambda: call(x))
+        if b:
+            return b
+        nops += 1
+        tags.append("op=FactorDict." + name)
+        for k, G, a in zip(keys, D2, t2):
+            d = cmp_spec(U, r[k], {kk: f_(v) for kk, v in a.items()})
+            if d:
+                return bad("impl!=spec:FactorDict.%s" % name, {"diff": d, "g": G})
+        for phi in r.values():
+            phi.values += 1
+        if snap(x) != sn0:
+            return bad("operand-mutated-via-result:FactorDict.%s" % name, {})
+    # ---- bilinearity across operations: <d1, d1 - d2> = <d1, d1> - <d1, d2>
+    x, y = mk(D1), mk(D2)
+    b, lhs = guarded("dot-of-sub", lambda: x.dot(x - y))
+    if b:
+        return b
+    rhs = sum(sum(a[k] * (a[k] - c2[k]) for k in a) for a, c2 in zip(t1, t2))
+    if not common.approx(float(lhs), rhs):
+        return bad("impl!=spec:FactorDict.dot-of-sub", {"impl": float(lhs), "spec": str(rhs)})
+    nops += 1
+    # ---- get_factors / product
+    if set(map(id, y.get_factors())) != set(map(id, y.values())):
+        return bad("impl!=spec:FactorDict.get_factors", {})
+    # ---- from_dataframe: empirical counts of each marginal (numpy backend; needs pandas + sklearn)
+    if case["backend"] == "numpy" and case["qseed"] % 4 == 0:
+        import pandas as pd
+        cols = sorted({v for F in D1 for v in F["vars"]})
+        nrows = rng.randint(5, 25)
+        rows = [[rng.randrange(U["card"][v]) for v in cols] for _ in range(nrows)]
+        df = pd.DataFrame(rows, columns=["c%d" % v for v in cols])
+        margs = [tuple("c%d" % v for v in F["vars"]) for F in D2]
+        b, fd = guarded("from_dataframe", lambda: FactorDict.from_dataframe(df, margs))
+        if b:
+            return b
+        nops += 1
+        tags.append("op=FactorDict.from_dataframe")
+        for mg, F in zip(margs, D2):
+            phi = fd[mg]
+            a = npvals(phi)
+            for idx in itertools.product(*[range(d_) for d_ in a.shape]):
+                names = {v: phi.state_names[v][i] for v, i in zip(phi.variables, idx)}
+                cnt = sum(1 for rw in rows if all(rw[cols.index(int(v[1:]))] == names[v] for v in names))
+                if float(a[idx]) != cnt:
+                    return bad("impl!=spec:FactorDict.from_dataframe", {"marginal": mg, "at": str(names), "impl": float(a[idx]), "count": cnt})
+            if list(phi.variables) != list(mg):
+                return bad("impl!=spec:FactorDict.from_dataframe:scope", {"impl": list(phi.variables), "marginal": mg})
+    return ok(nontrivial=permuted >= 1, key=common.canon_key(["fdict", U, D1, D2, case["backend"]]), tags=tags,
+              note="%d ops" % nops)
+
+
 def run_case(case, drv):
     from pgmpy import config
     backend = case.get("backend", "numpy")
@@ -1212,6 +1382,8 @@ def run_case(case, drv):
             return run_eq(case, drv)
         if case["kind"] == "fset":
             return run_fset(case, drv)
+        if case["kind"] == "fdict":
+            return run_fdict(case, drv)
         return run_err(case, drv)
     finally:
         if backend == "torch":
